@@ -107,7 +107,7 @@ def workdir(tag):
     return d
 
 
-def run_symx(prop, skeletons, tag, chunk=8, timeout_s=3600, extra_env=None):
+def run_symx(prop, skeletons, tag, chunk=8, timeout_s=1500, extra_env=None):
     """run the symbolic harness over all skeletons; returns (leaf records, summary records, failures)"""
     wd = workdir(tag)
     chunks = [skeletons[i : i + chunk] for i in range(0, len(skeletons), chunk)]
@@ -121,8 +121,18 @@ def run_symx(prop, skeletons, tag, chunk=8, timeout_s=3600, extra_env=None):
         with open(inp, "w") as f:
             for s in chunks[i]:
                 f.write(json.dumps(s) + "\n")
-        p = subprocess.run([symx_bin(), "run", prop, inp, out], env=e, capture_output=True, text=True, timeout=timeout_s)
-        return i, p.returncode, p.stderr[-2000:]
+        # own session: on a timeout the whole tree of forked path processes is ended, not only the top one
+        p = subprocess.Popen([symx_bin(), "run", prop, inp, out], env=e, stdout=subprocess.DEVNULL, stderr=subprocess.PIPE, text=True, start_new_session=True)
+        try:
+            _, err = p.communicate(timeout=timeout_s)
+        except subprocess.TimeoutExpired:
+            try:
+                os.killpg(p.pid, 9)
+            except ProcessLookupError:
+                pass
+            p.wait()
+            return i, -9, f"chunk {i} exceeded {timeout_s}s and was ended ({', '.join(str(s.get('id')) for s in chunks[i])})"
+        return i, p.returncode, (err or "")[-2000:]
 
     fails = []
     with ThreadPoolExecutor(NPROC) as ex:
